@@ -137,16 +137,15 @@ static void on_fatal(const char *kind, const char *detail) {
 // ------------------------------------------------------------------ session
 static uint8_t read_cb(int *ok) {
 	Session &s = *g_sess;
-	if (!s.up.empty() && s.up.front().first <= vf_now_us()) {
-		uint8_t b = s.up.front().second;
-		s.up.pop_front();
-		s.empty_polls = 0;
-		s.bytes_read++;
+	uint8_t b;
+	if (s.up.pop(vf_now_us(), b)) {
+		s.empty_polls.store(0, std::memory_order_relaxed);
+		s.bytes_read.fetch_add(1, std::memory_order_relaxed);
 		*ok = 1;
 		return b;
 	}
 	*ok = 0;
-	s.empty_polls++;
+	s.empty_polls.fetch_add(1, std::memory_order_relaxed);
 	return 0;
 }
 
@@ -205,9 +204,7 @@ void Session::stop() {
 }
 
 void Session::inject(const ref::Bytes &b, uint64_t delay) {
-	uint64_t t = vf_now_us() + delay;
-	if (!up.empty() && up.back().first > t) t = up.back().first;   // keep FIFO order
-	for (uint8_t x : b) up.emplace_back(t, x);
+	up.push(b.data(), b.size(), vf_now_us() + delay);
 }
 
 uint8_t Session::next_up_seq(const ref::Bytes &addr) {
@@ -229,9 +226,10 @@ void Session::inject_packet(const std::vector<ref::Msg> &msgs, uint64_t delay) {
 void Session::settle(unsigned extra) {
 	// the receiver polls every 5 ms (inside a packet) or 10 ms (before the first delimiter)
 	for (int guard = 0; guard < 200000; guard++) {
-		if (up.empty() && empty_polls >= extra) return;
-		if (!up.empty() && up.front().first > vf_now_us()) {
-			vf_usleep((unsigned) (up.front().first - vf_now_us()));
+		if (up.empty() && empty_polls.load(std::memory_order_relaxed) >= extra) return;
+		uint64_t ft = up.front_time(), now = vf_now_us();
+		if (ft != UINT64_MAX && ft > now) {
+			vf_usleep((unsigned) (ft - now));
 			continue;
 		}
 		vf_usleep(5000);
@@ -421,6 +419,28 @@ Verdict run_case_forked(const PropInfo &p, const ref::Bytes &data, const ref::By
 			}
 		}
 		v.stderr_tail = trimmed;
+	} else if (v.ok && err.find("WARNING: ThreadSanitizer:") != std::string::npos) {
+		// free-running flavour: the case finished, but ThreadSanitizer reported on the way. A report counts when one of
+		// its stacks has a libbidib frame and none of them is in a call outside the documented thread-safety contract.
+		size_t pos = 0;
+		while ((pos = err.find("WARNING: ThreadSanitizer:", pos)) != std::string::npos) {
+			size_t end = err.find("SUMMARY: ThreadSanitizer", pos);
+			if (end == std::string::npos) end = err.size();
+			else end = err.find('\n', end) == std::string::npos ? err.size() : err.find('\n', end);
+			std::string rep = err.substr(pos, end - pos);
+			pos = end;
+			static const std::regex lib("#[0-9]+ (bidib_[A-Za-z0-9_]+) ");
+			static const std::regex outside("#[0-9]+ (bidib_start_[a-z]+|bidib_stop|bidib_send_sys_reset|bidib_communication_works) ");
+			std::smatch m;
+			if (!std::regex_search(rep, m, lib)) continue;            // harness-only report
+			std::string frame = m[1].str();
+			if (std::regex_search(rep, outside)) continue;
+			std::string kind = rep.substr(26, rep.find(' ', 26) == std::string::npos ? 10 : rep.find('(', 26) - 27);
+			v.ok = false;
+			v.signature = "ThreadSanitizer:" + std::regex_replace(kind, std::regex(" "), "-") + "@" + frame;
+			v.msg = "ThreadSanitizer report in library code while the documented thread-safe API was used concurrently:\n" + (rep.size() > 3500 ? rep.substr(0, 3500) : rep);
+			break;
+		}
 	} else if (!v.ok) {
 		if (v.signature.empty()) {
 			// semantic failure: signature = message with numbers and hex blanked
